@@ -156,7 +156,7 @@ theorem canonicalize_dirChain (fs : FS) (p : Path) (h : DirChain fs [] p) : cano
 /-- a successful `unlink` of a plain path removes exactly that path -/
 theorem unlink_ok_plain (fs : FS) (root rel : Path) (hr : DirChain fs [] root)
     (hp : NoLinkBelow fs root rel) (hok : (unlink fs (root ++ rel)).1 = .ok) :
-    (unlink fs (root ++ rel)).2.lookup (root ++ rel) = none := by
+    (unlink fs (root ++ rel)).2 = eraseKey fs (root ++ rel) := by
   rcases List.eq_nil_or_concat rel with hnil | ⟨init, last, hrel⟩
   rotate_left
   · rw [List.concat_eq_append] at hrel
@@ -178,8 +178,8 @@ theorem unlink_ok_plain (fs : FS) (root rel : Path) (hr : DirChain fs [] root)
         | some n =>
           cases n with
           | dir => simp only [List.append_assoc] at hok hl; simp [hl] at hok
-          | file => simp [lookup_eraseKey]
-          | link t => simp [lookup_eraseKey]
+          | file => rfl
+          | link t => rfl
       · simp only [Bool.not_eq_true] at hd
         simp [hd] at hok
     · rw [hc] at hok
@@ -255,6 +255,7 @@ structure DelFacts (root : Path) (rows : List Row) (fs : FS) (inv : List Row)
   paths : ∀ a ∈ t.2.2, a.path = root ++ a.row.rel
   inv : t.2.1 = inv.filter (fun x => !(doneRels t.2.2).contains x.rel)
   removed : ∀ a ∈ t.2.2, a.res = .ok → t.1.lookup (root ++ a.row.rel) = none
+  only : ∀ q, t.1.lookup q = fs.lookup q ∨ ∃ a ∈ t.2.2, a.res = .ok ∧ q = root ++ a.row.rel
   all : (∀ a ∈ t.2.2, a.res ≠ .err) → doneRels t.2.2 = rows.map (·.rel)
 
 /-- `delete_files` on plain candidates `(r, root/r.rel)`: the inventory loses exactly the rows whose
@@ -265,7 +266,7 @@ theorem deleteFiles_plain (root : Path) (rows : List Row) (fs : FS) (inv : List 
     DelFacts root rows fs inv (deleteFiles root fs inv (rows.map fun r => (r, root ++ r.rel))) := by
   induction rows generalizing fs inv with
   | nil =>
-    refine ⟨hr, fun _ _ h => h, fun _ h => h, rfl, ?_, ?_, ?_, fun _ => rfl⟩
+    refine ⟨hr, fun _ _ h => h, fun _ h => h, rfl, ?_, ?_, ?_, fun _ => Or.inl rfl, fun _ => rfl⟩
     · simp [deleteFiles]
     · simp only [deleteFiles, doneRels, List.filter_nil, List.map_nil, List.contains_nil, Bool.not_false]
       exact (List.filter_eq_self.mpr (fun _ _ => rfl)).symm
@@ -286,8 +287,11 @@ theorem deleteFiles_plain (root : Path) (rows : List Row) (fs : FS) (inv : List 
     generalize hinv' : (if u.1 = .err then inv else inv.filter fun x => !(x.rel == r.rel)) = inv'
     have I := ih u.2 inv' hr' hp'
     generalize deleteFiles root u.2 inv' (rs.map fun r => (r, root ++ r.rel)) = t at I
-    obtain ⟨i1, i2, i3, i4, i5, i6, i7, i8⟩ := I
-    refine ⟨i1, ?_, ?_, ?_, ?_, ?_, ?_, ?_⟩
+    obtain ⟨i1, i2, i3, i4, i5, i6, i7, i9, i8⟩ := I
+    have hu2 : u.1 = .ok → u.2 = eraseKey fs (root ++ r.rel) := fun hok => by
+      have := unlink_ok_plain fs root r.rel hr hpr (by rw [hu]; exact hok)
+      rw [hu] at this; exact this
+    refine ⟨i1, ?_, ?_, ?_, ?_, ?_, ?_, ?_, ?_⟩
     · intro q rel h
       exact i2 q rel (by rw [← hu]; exact noLinkBelow_unlink fs _ _ _ h)
     · intro q h
@@ -311,10 +315,21 @@ theorem deleteFiles_plain (root : Path) (rows : List Row) (fs : FS) (inv : List 
       rcases List.mem_cons.mp ha with rfl | ha'
       · simp only at hok ⊢
         apply i3
-        have := unlink_ok_plain fs root r.rel hr hpr (by rw [hu]; exact hok)
-        rw [hu] at this
-        exact this
+        rw [hu2 hok, lookup_eraseKey]
+        simp
       · exact i7 a ha' hok
+    · intro q
+      rcases i9 q with h | ⟨a, ha, hok, hq⟩
+      · by_cases hok : u.1 = .ok
+        · rw [hu2 hok, lookup_eraseKey] at h
+          by_cases hq : q = root ++ r.rel
+          · right; exact ⟨_, List.mem_cons_self, hok, hq⟩
+          · left; rw [h]; simp [hq]
+        · left
+          have := unlink_fs_of_not_ok fs (root ++ r.rel) (by rw [hu]; exact hok)
+          rw [hu] at this
+          rw [h, this]
+      · right; exact ⟨a, List.mem_cons_of_mem _ ha, hok, hq⟩
     · intro hne
       have h1 : u.1 ≠ .err := hne _ (List.mem_cons_self)
       have h2 := i8 (fun a ha => hne a (List.mem_cons_of_mem _ ha))
